@@ -1,7 +1,445 @@
-import NimaVerif.Model.Edit
-/-! # C04 — placeholder until the theorems are in. -/
+import NimaVerif.Lemmas.EditScoped
+import NimaVerif.Lemmas.Hoare
+/-!
+# C04 — an edit touches only the binding it addresses
+
+Statements about the edit model (`Model/Edit.lean`, a transliteration of `cli/manipulations.py` tied
+to the code by object-graph correspondence on every run). Everything quantifies over **all**
+documents, paths, values and histories; nothing is bounded.
+
+* §1 frame of a write by identity: what `binding.value = v` leaves alone (`others`, `frames`,
+  `wrappers`);
+* §2 successful plain edits *are* such writes / one append / one erase — exact characterisations and
+  the frame property derived from them;
+* §3 every unscoped operation, whatever the path and whether it succeeds or fails, leaves the
+  wrappers alone; the full statement (every operation) is false — a scoped `set` that has to create a
+  let layer moves the target's leading/trailing trivia into the layer (by design, see DESIGN §8/C04
+  *Partial*): `cex_wrappers_scoped`;
+* §4 histories: no sequence of operations (scoped or not, succeeding or failing) ever fabricates or
+  alters the name / nested flag / `before` / `after` of a binding: every frame of the final document
+  is a frame of the initial document, a frame of a supplied value, or a fresh binding with empty
+  trivia.
+
+SPEC definitions used (`Model/Frame.lean`): `Doc.frames`, `Doc.allFrames`, `Doc.wrappers`, `Op`,
+`run`, `Doc.Fresh`, `Doc.NoLayers`, `hole`, `Doc.sidElsewhere`; here: `others`.
+-/
 namespace Nima.C04
-theorem updBind_other (id i : Nat) (n : Text) (ne : Bool) (v val : Node) (b a : Payload) (h : i ≠ id) :
-    Node.updBind id v (.bind i n ne val b a) = .bind i n ne (Node.updBind id v val) b a := by
-  simp [Node.updBind, h]
+
+open Node
+
+/-! ## SPEC -/
+
+/-- the document with the value of Binding object `b` masked: *everything* else — every other
+    binding with its value, the order lists, all trivia, the layers — is still there -/
+def others (b : Nat) (d : Doc) : Doc := d.updBind b hole
+
+/-! ## 1. Frame of a write by identity -/
+
+/-- A write to Binding object `id` leaves every other Binding object its identity, name, nested flag
+    and trivia; its value changes only inside, by the same write. -/
+theorem write_keeps_other_binding (id i : Nat) (n : Text) (ne : Bool) (v val : Node) (b a : Payload)
+    (h : i ≠ id) :
+    Node.updBind id v (.bind i n ne val b a) = .bind i n ne (Node.updBind id v val) b a :=
+  updBind_frame id i n ne v val b a h
+
+/-- The written object itself keeps identity, name, nested flag and trivia. -/
+theorem write_keeps_own_frame (id : Nat) (n : Text) (ne : Bool) (v val : Node) (b a : Payload) :
+    Node.updBind id v (.bind id n ne val b a) = .bind id n ne v b a :=
+  updBind_self id n ne v val b a
+
+/-- Masking the value of `b`, the document before and after a write to `b` are equal. -/
+theorem write_others (b : Nat) (v : Node) (d : Doc) : others b (d.updBind b v) = others b d :=
+  Doc.updBind_absorb b v hole d
+
+/-- The frames (identity, name, nested, before, after; document order) of all bindings outside the
+    written value are unchanged. -/
+theorem write_frames (b : Nat) (v : Node) (d : Doc) : (d.updBind b v).frames b = d.frames b :=
+  Doc.frames_updBind b v d
+
+/-- Wrappers and the identity counter are not touched by a write. -/
+theorem write_wrappers (b : Nat) (v : Node) (d : Doc) :
+    (d.updBind b v).wrappers = d.wrappers ∧ (d.updBind b v).next = d.next := ⟨rfl, rfl⟩
+
+/-- An in-place mutation of an AttributeSet object leaves every Binding object its frame … -/
+theorem mutation_keeps_binding (sid i : Nat) (f : Node → Node) (n : Text) (ne : Bool) (val : Node)
+    (b a : Payload) :
+    Node.updSet sid f (.bind i n ne val b a) = .bind i n ne (Node.updSet sid f val) b a :=
+  updSet_frame sid i f n ne val b a
+
+/-- … and every other AttributeSet object its identity and flags. -/
+theorem mutation_keeps_other_set (sid s : Nat) (f : Node → Node) (vs o : List Node) (m r : Bool)
+    (h : s ≠ sid) :
+    Node.updSet sid f (.set s vs o m r) = .set s (updSetL sid f vs) (updSetL sid f o) m r :=
+  updSet_frame_set sid s f vs o m r h
+
+/-- A mutation of an object that occurs only at the target changes the target alone. -/
+theorem mutation_only_target (sid : Nat) (f : Node → Node) (d : Doc) (h : d.sidElsewhere sid = false) :
+    d.updSet sid f = { d with target := Node.updSet sid f d.target } :=
+  Nima.Doc.updSet_only_target sid f d h
+
+/-! ## 2. Successful plain edits, characterised -/
+
+/-- The two path hypotheses used throughout (`p` is unscoped and has exactly one segment) hold for the
+    canonical spelling of **every** name, whatever characters it contains; `k` is then the token
+    `set` itself writes for that name. -/
+theorem plain_path_hyps (n : Text) :
+    splitScopeNpath (renderSeg n) = .ok none ∧
+    formatNPath currentAnchor (renderSeg n) = .ok [formatAttrName currentAnchor (segOf n)] :=
+  ⟨splitScope_renderSeg n, formatNPath_renderSeg n⟩
+
+/-- `set k v` on an existing, explicitly written binding `k` of the target whose current value is not
+    an identifier reference (those are C11's) is exactly `binding.value = v`. -/
+theorem set_existing_plain (d : Doc) (p k : Text) (v : Node) (bid : Nat) (nm : Text) (ne : Bool)
+    (val : Node) (bf af : Payload)
+    (hnt : d.noTarget = none) (hsp : splitScopeNpath p = .ok none)
+    (hf : formatNPath currentAnchor p = .ok [k])
+    (hr : findAttrpathRoot d.target.setValues k = none)
+    (hb : findBinding d.target.setValues k = some (.bind bid nm ne val bf af))
+    (hval : val.isIdent = false) :
+    setValue p (.one v) d = (.ok (), d.updBind bid v) :=
+  Nima.set_existing_plain d p k v bid nm ne val bf af hnt hsp hf hr hb hval
+
+/-- Hence: all other bindings (with their values), the order lists, every payload, `tBefore`,
+    `tAfter`, `trailing` and the layers are unchanged. -/
+theorem set_existing_frame (d d' : Doc) (p k : Text) (v : Node) (bid : Nat) (nm : Text) (ne : Bool)
+    (val : Node) (bf af : Payload)
+    (hnt : d.noTarget = none) (hsp : splitScopeNpath p = .ok none)
+    (hf : formatNPath currentAnchor p = .ok [k])
+    (hr : findAttrpathRoot d.target.setValues k = none)
+    (hb : findBinding d.target.setValues k = some (.bind bid nm ne val bf af))
+    (hval : val.isIdent = false)
+    (hset : setValue p (.one v) d = (.ok (), d')) :
+    others bid d' = others bid d ∧ d'.frames bid = d.frames bid ∧ d'.wrappers = d.wrappers ∧
+      d'.next = d.next := by
+  rw [set_existing_plain d p k v bid nm ne val bf af hnt hsp hf hr hb hval] at hset
+  cases hset
+  exact ⟨write_others bid v d, write_frames bid v d, rfl, rfl⟩
+
+/-- `set` on the leaf of an attrpath family (`a.b.c = …;`) is exactly `leaf.value = v`. -/
+theorem set_attrpath_leaf (d : Doc) (p : Text) (segs : List Text) (v : Node) (lid : Nat) (nm : Text)
+    (ne : Bool) (val : Node) (bf af : Payload)
+    (hnt : d.noTarget = none) (hsp : splitScopeNpath p = .ok none)
+    (hf : formatNPath currentAnchor p = .ok segs)
+    (hl : findAttrpathLeaf d.target segs = some (.bind lid nm ne val bf af)) :
+    setValue p (.one v) d = (.ok (), d.updBind lid v) :=
+  Nima.set_attrpath_leaf d p segs v lid nm ne val bf af hnt hsp hf hl
+
+theorem set_attrpath_leaf_frame (d d' : Doc) (p : Text) (segs : List Text) (v : Node) (lid : Nat)
+    (nm : Text) (ne : Bool) (val : Node) (bf af : Payload)
+    (hnt : d.noTarget = none) (hsp : splitScopeNpath p = .ok none)
+    (hf : formatNPath currentAnchor p = .ok segs)
+    (hl : findAttrpathLeaf d.target segs = some (.bind lid nm ne val bf af))
+    (hset : setValue p (.one v) d = (.ok (), d')) :
+    others lid d' = others lid d ∧ d'.frames lid = d.frames lid ∧ d'.wrappers = d.wrappers ∧
+      d'.next = d.next := by
+  rw [set_attrpath_leaf d p segs v lid nm ne val bf af hnt hsp hf hl] at hset
+  cases hset
+  exact ⟨write_others lid v d, write_frames lid v d, rfl, rfl⟩
+
+/-- `set k v` for a fresh single segment `k`: ONE binding (fresh identity, empty trivia) is appended
+    last to `values` of the target object, and to `attrpath_order` iff that was non-empty. -/
+theorem set_fresh_plain (d : Doc) (p k : Text) (v : Node) (sid : Nat)
+    (hnt : d.noTarget = none) (hsp : splitScopeNpath p = .ok none)
+    (hf : formatNPath currentAnchor p = .ok [k])
+    (hs : d.target.setSid? = some sid)
+    (hr : findAttrpathRoot d.target.setValues k = none)
+    (hb : findBinding d.target.setValues k = none) :
+    setValue p (.one v) d =
+      (.ok (), { d.updSet sid (appendBothF (.bind d.next k false v [] [])) with next := d.next + 1 }) :=
+  Nima.set_fresh_plain d p k v sid hnt hsp hf hs hr hb
+
+/-- Hence (target object referenced once): the result is `d` with the new binding appended to the
+    target's `values` / non-empty `order`; nothing else differs but `next`. -/
+theorem set_fresh_frame (d : Doc) (p k : Text) (v : Node) (sid : Nat) (vs o : List Node) (m r : Bool)
+    (hnt : d.noTarget = none) (hsp : splitScopeNpath p = .ok none)
+    (hf : formatNPath currentAnchor p = .ok [k])
+    (ht : d.target = .set sid vs o m r)
+    (hr : findAttrpathRoot vs k = none) (hb : findBinding vs k = none)
+    (hone : d.sidElsewhere sid = false) :
+    setValue p (.one v) d =
+      (.ok (), { d with
+        target := .set sid (vs ++ [.bind d.next k false v [] []])
+          (if o.isEmpty then o else o ++ [.bind d.next k false v [] []]) m r
+        next := d.next + 1 }) :=
+  Nima.set_fresh_frame d p k v sid vs o m r hnt hsp hf ht hr hb hone
+
+/-- `rm k` for an existing, explicitly written binding `k`: exactly that Binding object is erased
+    from `values` and (as an item of its own) from a non-empty `attrpath_order`. -/
+theorem rm_plain (d : Doc) (p k : Text) (bid : Nat) (nm : Text) (ne : Bool)
+    (val : Node) (bf af : Payload) (sid : Nat)
+    (hnt : d.noTarget = none) (hsp : splitScopeNpath p = .ok none)
+    (hf : formatNPath currentAnchor p = .ok [k])
+    (hs : d.target.setSid? = some sid)
+    (hr : findAttrpathRoot d.target.setValues k = none)
+    (hb : findBinding d.target.setValues k = some (.bind bid nm ne val bf af)) :
+    removeValue p d = (.ok (), d.updSet sid (eraseBothF bid)) :=
+  Nima.rm_plain d p k bid nm ne val bf af sid hnt hsp hf hs hr hb
+
+theorem rm_frame (d : Doc) (p k : Text) (bid : Nat) (nm : Text) (ne : Bool)
+    (val : Node) (bf af : Payload) (sid : Nat) (vs o : List Node) (m r : Bool)
+    (hnt : d.noTarget = none) (hsp : splitScopeNpath p = .ok none)
+    (hf : formatNPath currentAnchor p = .ok [k])
+    (ht : d.target = .set sid vs o m r)
+    (hr : findAttrpathRoot vs k = none)
+    (hb : findBinding vs k = some (.bind bid nm ne val bf af))
+    (hone : d.sidElsewhere sid = false) :
+    removeValue p d =
+      (.ok (), { d with
+        target := .set sid (vs.eraseP fun n => n.bindId? == some bid)
+          (if o.isEmpty then o else o.eraseP fun n => n.isBind && n.bindId? == some bid) m r }) :=
+  Nima.rm_frame d p k bid nm ne val bf af sid vs o m r hnt hsp hf ht hr hb hone
+
+/-- "erase the first item that is the Binding object `bid`" removes exactly one item, the first with
+    that identity; everything before and after it stays, in order. -/
+theorem rm_removes_exactly (vs : List Node) (k : Text) (bid : Nat) (nm : Text) (ne : Bool)
+    (val : Node) (bf af : Payload)
+    (hb : findBinding vs k = some (.bind bid nm ne val bf af)) :
+    ∃ l₁ b l₂, vs = l₁ ++ b :: l₂ ∧ b.bindId? = some bid ∧ (∀ x ∈ l₁, x.bindId? ≠ some bid) ∧
+      vs.eraseP (fun n => n.bindId? == some bid) = l₁ ++ l₂ := by
+  have hm : Node.bind bid nm ne val bf af ∈ vs := List.mem_of_find?_eq_some hb
+  obtain ⟨b, l₁, l₂, h1, h2, h3, h4⟩ :=
+    List.exists_of_eraseP (p := fun n : Node => n.bindId? == some bid) hm (by simp [bindId?])
+  exact ⟨l₁, b, l₂, h3, by simpa using h2, fun x hx => by simpa using h1 x hx, h4⟩
+
+/-- FULL statement: a successful `rm` makes (at least) one Binding object unreachable. -/
+def rm_unreachable_full : Prop :=
+  ∀ (d : Doc) (p : Text), (removeValue p d).1 = .ok () →
+    ∃ j, d.hasBind j = true ∧ (removeValue p d).2.hasBind j = false
+
+/-- `{ b = { a.p = 1; a.q = 2; }; }` — an attrpath family inside an explicit nested set -/
+def nestedFamilyDoc : Doc :=
+  { target := .set 1
+      [ .bind 2 "b".toList false
+          (.set 3
+            [ .bind 4 "a".toList true
+                (.set 5 [.bind 6 "p".toList false (.atom "1".toList) [] [],
+                         .bind 7 "q".toList false (.atom "2".toList) [] []] [] true false) [] [] ]
+            [ .entry ["a".toList, "p".toList] (.bind 6 "p".toList false (.atom "1".toList) [] []) none none,
+              .entry ["a".toList, "q".toList] (.bind 7 "q".toList false (.atom "2".toList) [] []) none none ]
+            true false) [] [] ]
+      [] true false
+    next := 8 }
+
+/-- Counterexample (open known findings C04-nested-attrpath-family-rm / C05-nested-attrpath-family):
+    `rm b.a.p` on `{ b = { a.p = 1; a.q = 2; }; }` reports success and erases `p` from the `values` of
+    the merged family `a`, but the `_AttrpathEntry` for `a.p` in the `attrpath_order` of `b` — which is
+    what `b` is rendered from — still holds the binding: nothing became unreachable, the text is unchanged. -/
+theorem cex_nested_family_rm : ¬ rm_unreachable_full := by
+  intro h
+  obtain ⟨j, h1, h2⟩ := h nestedFamilyDoc "b.a.p".toList (by decide)
+  have hj : j ≤ 7 := by
+    apply Nat.le_of_not_lt
+    intro hlt
+    have := (Doc.not_has_of_maxId_lt j nestedFamilyDoc (by
+      have : nestedFamilyDoc.maxId = 7 := by decide
+      omega)).1
+    rw [this] at h1; cases h1
+  have key : ∀ j, j ≤ 7 → nestedFamilyDoc.hasBind j = true →
+      (removeValue "b.a.p".toList nestedFamilyDoc).2.hasBind j = true := by decide
+  rw [key j hj h1] at h2; cases h2
+
+/-- PARTIAL: for a plain `rm k` the object does become unreachable, provided it is referenced from the
+    target only and — the decidable side condition that excludes exactly the defective class — no
+    reference to it is left in what remains of `values` / `attrpath_order` once the item itself is
+    erased (no `_AttrpathEntry` wrapping it, no second listing). -/
+theorem rm_unreachable_partial (d : Doc) (p k : Text) (bid : Nat) (nm : Text) (ne : Bool)
+    (val : Node) (bf af : Payload) (sid : Nat) (vs o : List Node) (m r : Bool)
+    (hnt : d.noTarget = none) (hsp : splitScopeNpath p = .ok none)
+    (hf : formatNPath currentAnchor p = .ok [k])
+    (ht : d.target = .set sid vs o m r)
+    (hr : findAttrpathRoot vs k = none)
+    (hb : findBinding vs k = some (.bind bid nm ne val bf af))
+    (hone : d.sidElsewhere sid = false)
+    (hrest : ({ d with target := hole } : Doc).hasBind bid = false)
+    (hvals : hasBindL bid (vs.eraseP fun n => n.bindId? == some bid) = false)
+    (hord : hasBindL bid (if o.isEmpty then o else o.eraseP fun n => n.isBind && n.bindId? == some bid)
+      = false) :
+    d.hasBind bid = true ∧ (removeValue p d).2.hasBind bid = false := by
+  constructor
+  · have hm : Node.bind bid nm ne val bf af ∈ vs := List.mem_of_find?_eq_some hb
+    have : hasBindL bid vs = true := hasBindL_of_mem hm (by simp [Node.hasBind])
+    simp [Doc.hasBind, ht, Node.hasBind, this]
+  · rw [rm_frame d p k bid nm ne val bf af sid vs o m r hnt hsp hf ht hr hb hone]
+    dsimp only
+    rw [Doc.hasBind_with_target]
+    simp only [Node.hasBind, hvals, hord, Bool.or_self, Bool.false_or]
+    exact hrest
+
+/-- A scoped `set @k v` on a document without let layers (and `k` not an attribute of the target)
+    creates the layer: the new binding is its only member, the target's leading / trailing trivia
+    move to the layer body — and nothing else changes. -/
+theorem set_scoped_creates_layer (d : Doc) (p rest k : Text) (v : Node)
+    (hnt : d.noTarget = none) (hsp : splitScopeNpath p = .ok (some (1, rest)))
+    (hf : formatNPath currentAnchor rest = .ok [k])
+    (hnl : d.NoLayers) (hpe : pathExistsInAttrset d.target [k] = false) (hfr : d.Fresh) :
+    setValue p (.one v) d = (.ok (), { d with
+      tBefore := [], tAfter := [], scope := [.bind (d.next + 1) k false v [] []],
+      stBodyBefore := d.tBefore, stBodyAfter := d.tAfter, next := d.next + 2 }) :=
+  set_scoped_newlayer d p rest k v hnt hsp hf hnl hpe hfr
+
+/-! ## 3. Wrappers -/
+
+/-- FULL statement: a successful `set` leaves the wrappers alone. False: see `cex_wrappers_scoped`. -/
+def wrappers_full : Prop :=
+  ∀ (d d' : Doc) (p : Text) (v : Node), setValue p (.one v) d = (.ok (), d') → d'.wrappers = d.wrappers
+
+/-- Counterexample: `set @x 1` on `# c⏎{ }` (a comment before the target, no let): the comment moves
+    from `target.before` to the `body_before` of the created layer. The abstract model is right to
+    show this — it is what DESIGN §8/C04 *Partial* excludes; at the text level the consequences are the
+    known findings C19-with-body-newline / C19-lambda-with-body-newline. -/
+theorem cex_wrappers_scoped : ¬ wrappers_full := by
+  intro h
+  have := h { tBefore := [2] } _ "@x".toList (.atom "1".toList)
+    (set_scoped_newlayer _ _ "x".toList "x".toList _ rfl (by decide) (by decide) (by decide) rfl (by decide))
+  simp [Doc.wrappers] at this
+
+/-- What holds: every operation on an **unscoped** path — any path text, any value, successful or
+    rejected — leaves the wrappers (and `noTarget`) exactly as they were. -/
+theorem wrappers_partial_set (d : Doc) (p : Text) (v : ValueArg) (hsp : splitScopeNpath p = .ok none) :
+    (setValue p v d).2.wrappers = d.wrappers := by
+  cases v with
+  | empty => rfl
+  | invalid => rfl
+  | one v =>
+    exact (setValue_unscoped_triple
+      (wrappers_prim d.wrappers Doc.wrappers (fun _ _ _ => rfl) (fun _ _ _ => rfl) (fun _ => rfl))
+      p v trivial hsp d rfl).1
+
+theorem wrappers_partial_rm (d : Doc) (p : Text) (hsp : splitScopeNpath p = .ok none) :
+    (removeValue p d).2.wrappers = d.wrappers :=
+  (removeValue_unscoped_triple
+    (wrappers_prim d.wrappers Doc.wrappers (fun _ _ _ => rfl) (fun _ _ _ => rfl) (fun _ => rfl))
+    p hsp d rfl).1
+
+/-- Lifted to histories of unscoped operations. -/
+theorem history_wrappers (ops : List Op) (d : Doc)
+    (h : ∀ op ∈ ops, splitScopeNpath op.path = .ok none) : (run ops d).wrappers = d.wrappers := by
+  induction ops generalizing d with
+  | nil => rfl
+  | cons op ops ih =>
+    have h1 : (op.apply d).2.wrappers = d.wrappers := by
+      have hp := h op (by simp)
+      cases op with
+      | set p v => exact wrappers_partial_set d p v hp
+      | rm p => exact wrappers_partial_rm d p hp
+    simp only [run]
+    rw [ih _ (fun o ho => h o (by simp [ho])), h1]
+
+/-! ## 4. Histories: no payload is ever fabricated or altered -/
+
+/-- One operation, any path (scoped or not), any value, successful or rejected: if every binding of
+    the document and of the supplied value has a frame satisfying `P`, and so does every fresh binding
+    with empty trivia, then every binding of the resulting document has a frame satisfying `P`. -/
+theorem op_frames (P : Frame → Prop) (N : Nat) (hP : ∀ i key ne, N ≤ i → P (i, key, ne, [], []))
+    (op : Op) (hv : ∀ p v, op = .set p (.one v) → AllF P v) (d : Doc) (h : FInv P N d) :
+    FInv P N (op.apply d).2 := by
+  cases op with
+  | set p v =>
+    cases v with
+    | empty => exact h
+    | invalid => exact h
+    | one v => exact setValue_inv hP p v (hv p v rfl) d h
+  | rm p => exact removeValue_inv hP p d h
+
+/-- Every history, by induction over the operation list. -/
+theorem history_frames (P : Frame → Prop) (d : Doc) (ops : List Op)
+    (hP : ∀ i key ne, d.next ≤ i → P (i, key, ne, [], []))
+    (hv : ∀ p v, Op.set p (.one v) ∈ ops → AllF P v)
+    (hd : ∀ n ∈ d.nodes, AllF P n) :
+    ∀ n ∈ (run ops d).nodes, AllF P n := by
+  suffices h : ∀ (ops : List Op) (e : Doc), (∀ p v, Op.set p (.one v) ∈ ops → AllF P v) →
+      FInv P d.next e → FInv P d.next (run ops e) from (h ops d hv ⟨Nat.le_refl _, hd⟩).2
+  intro ops
+  induction ops with
+  | nil => intro e _ he; exact he
+  | cons op ops ih =>
+    intro e hv he
+    simp only [run]
+    exact ih _ (fun p v hm => hv p v (by simp [hm]))
+      (op_frames P d.next hP op (fun p v hop => hv p v (by simp [hop])) e he)
+
+theorem mem_doc_allFrames {x : Frame} {d : Doc} :
+    x ∈ d.allFrames ↔ ∃ n ∈ d.nodes, x ∈ Node.allFrames n := by
+  simp [Doc.allFrames, List.mem_flatMap]
+
+/-- The same in plain words: after any history, the frame (identity, name, nested flag, `before`,
+    `after`) of every binding of the document is the unchanged frame of a binding of the initial
+    document, or comes with one of the supplied values, or belongs to a binding created by the history
+    (fresh identity, empty trivia). -/
+theorem history_frames_mem (d : Doc) (ops : List Op) (x : Frame) (hx : x ∈ (run ops d).allFrames) :
+    x ∈ d.allFrames ∨
+    (∃ p v, Op.set p (.one v) ∈ ops ∧ x ∈ Node.allFrames v) ∨
+    (d.next ≤ x.1 ∧ x.2.2.2 = ([], [])) := by
+  obtain ⟨n, hn, hxn⟩ := mem_doc_allFrames.1 hx
+  exact history_frames
+    (fun x => x ∈ d.allFrames ∨ (∃ p v, Op.set p (.one v) ∈ ops ∧ x ∈ Node.allFrames v) ∨
+      (d.next ≤ x.1 ∧ x.2.2.2 = ([], [])))
+    d ops (fun i key ne hi => Or.inr (Or.inr ⟨hi, rfl⟩))
+    (fun p v hm x hx => Or.inr (Or.inl ⟨p, v, hm, hx⟩))
+    (fun n hn x hx => Or.inl (mem_doc_allFrames.2 ⟨n, hn, hx⟩)) n hn x hxn
+
+/-! ## Non-vacuity: a document with three bindings, an attrpath family and a let layer -/
+
+/-- `let x = 0; in { a = 1; b = 2; c = a; s.p = 1; s.q = 2; }` with some trivia tokens -/
+def exDoc : Doc :=
+  { target := .set 1
+      [ .bind 2 "a".toList false (.atom "1".toList) [5] [6],
+        .bind 3 "b".toList false (.atom "2".toList) [] [],
+        .bind 4 "c".toList false (.ident "a".toList) [] [7],
+        .bind 8 "s".toList true
+          (.set 9 [.bind 10 "p".toList false (.atom "1".toList) [] [],
+                   .bind 11 "q".toList false (.atom "2".toList) [] []] [] true false) [] [] ]
+      [ .bind 2 "a".toList false (.atom "1".toList) [5] [6],
+        .bind 3 "b".toList false (.atom "2".toList) [] [],
+        .bind 4 "c".toList false (.ident "a".toList) [] [7],
+        .entry ["s".toList, "p".toList] (.bind 10 "p".toList false (.atom "1".toList) [] []) none none,
+        .entry ["s".toList, "q".toList] (.bind 11 "q".toList false (.atom "2".toList) [] []) none none ]
+      true false
+    scope := [.bind 12 "x".toList false (.atom "0".toList) [] []]
+    stBodyBefore := [0]
+    trailing := [0]
+    next := 13 }
+
+example : exDoc.Fresh := by decide
+example : exDoc.sidElsewhere 1 = false := by decide
+
+/-- replace: `set a 7` -/
+example : setValue "a".toList (.one (.atom "7".toList)) exDoc =
+    (.ok (), exDoc.updBind 2 (.atom "7".toList)) :=
+  set_existing_plain exDoc _ "a".toList _ 2 _ _ _ _ _ rfl (by decide) (by decide) rfl rfl rfl
+
+/-- insert: `set "z z" 7` appends one binding to `values` and to the (non-empty) order -/
+example : ∃ d', setValue "\"z z\"".toList (.one (.atom "7".toList)) exDoc = (.ok (), d') ∧
+    d'.target.setValues.length = 5 ∧ d'.target.setOrder.length = 6 ∧ d'.scope = exDoc.scope := by
+  exact ⟨_, set_fresh_frame exDoc _ "\"z z\"".toList _ 1 _ _ _ _ rfl (by decide) (by decide) rfl rfl rfl
+    (by decide), rfl, rfl, rfl⟩
+
+/-- remove: `rm b` -/
+example : ∃ d', removeValue "b".toList exDoc = (.ok (), d') ∧
+    d'.target.setValues.length = 3 ∧ d'.target.setOrder.length = 4 :=
+  ⟨_, rm_frame exDoc _ "b".toList 3 _ _ _ _ _ 1 _ _ _ _ rfl (by decide) (by decide) rfl rfl rfl (by decide),
+    rfl, rfl⟩
+
+/-- … and the object is unreachable afterwards -/
+example : exDoc.hasBind 3 = true ∧ (removeValue "b".toList exDoc).2.hasBind 3 = false :=
+  rm_unreachable_partial exDoc _ "b".toList 3 _ _ _ _ _ 1 _ _ _ _ rfl (by decide) (by decide) rfl rfl rfl
+    (by decide) (by decide) (by decide) (by decide)
+
+/-- attrpath leaf: `set s.p 7` is a write to Binding object 10 -/
+example : setValue "s.p".toList (.one (.atom "7".toList)) exDoc =
+    (.ok (), exDoc.updBind 10 (.atom "7".toList)) :=
+  set_attrpath_leaf exDoc _ ["s".toList, "p".toList] _ 10 _ _ _ _ _ rfl (by decide) (by decide) rfl
+
+/-- a history mixing scoped, unscoped, attrpath and rejected operations -/
+example : ∀ x ∈ (run [.set "@y".toList (.one (.atom "1".toList)), .rm "s.q".toList, .rm "nope".toList,
+      .set "b.k".toList (.one (.ident "a".toList)), .rm "@x".toList] exDoc).allFrames,
+    x ∈ exDoc.allFrames ∨ (13 ≤ x.1 ∧ x.2.2.2 = ([], [])) := by
+  intro x hx
+  rcases history_frames_mem exDoc _ x hx with h | ⟨p, v, hm, hv⟩ | h
+  · exact Or.inl h
+  · simp only [List.mem_cons, Op.set.injEq, ValueArg.one.injEq, reduceCtorEq, List.not_mem_nil,
+      or_false, false_or] at hm
+    rcases hm with ⟨_, rfl⟩ | ⟨_, rfl⟩ <;> simp [Node.allFrames] at hv
+  · exact Or.inr h
+
 end Nima.C04
